@@ -128,6 +128,60 @@ def w_whole(levels: int, idx: int, thorough: bool = False) -> Part:
     return part
 
 
+CB_PATTERNS = ["1/*/*", "0-1/2/3-4", "*/*/5", "1/2/3", "2-/*/7-", "i-a*"]
+CB_ADDRS = ["1/2/3", "1/2/5", "0/2/4", "2/0/7", "3/1/5", "i-ab", "i-b"]
+
+
+def w_callback_history(k: int, n: int, depth: int) -> Part:
+    """The queue's Callback decides by pattern, address (and direction flag) only: ALL telegram histories up to `depth`
+    over 7 addresses x {incoming, outgoing} against ONE callback object, every decision compared with the stateless reference."""
+    part = Part()
+    saved = GroupAddress.address_format
+    GroupAddress.address_format = GroupAddressType.LONG
+    try:
+        addrs = [InternalGroupAddress(a) if a.startswith("i-") else GroupAddress(a) for a in CB_ADDRS]
+        tele = [(a, d) for a in range(len(addrs)) for d in (TelegramDirection.INCOMING, TelegramDirection.OUTGOING)]
+        configs = [(pats, gas, out) for pats in ([], [0], [1], [2, 4], [3], [5], [0, 5]) for gas in (None, [], [1], [5, 3]) for out in (False, True)]
+        for ci, (pats, gas, out) in enumerate(configs):
+            if ci % n != k:
+                continue
+            if not pats and gas is None:
+                af = None
+            else:
+                af = [AddressFilter(CB_PATTERNS[i]) for i in pats]
+
+            def want(a: int, d: TelegramDirection) -> bool:
+                if d is TelegramDirection.OUTGOING and not out:
+                    return False
+                if af is None and gas is None:
+                    return True
+                ad = addrs[a]
+                by_pat = any((R.glob_matches(CB_PATTERNS[i][2:], ad.raw[2:]) if isinstance(ad, InternalGroupAddress) else R.pattern_matches(CB_PATTERNS[i], ad.raw))
+                             for i in pats if CB_PATTERNS[i].startswith("i-") == isinstance(ad, InternalGroupAddress))
+                return by_pat or (gas is not None and a in gas)
+
+            for hist in itertools.product(range(len(tele)), repeat=depth):
+                cb = TelegramQueue.Callback(lambda t: None, address_filters=af, group_addresses=None if gas is None else [addrs[g] for g in gas], match_for_outgoing_telegrams=out)
+                for step, ti in enumerate(hist):
+                    a, d = tele[ti]
+                    part.evaluations += 1
+                    part.nontrivial += 1
+                    try:
+                        got = cb.is_within_filter(Telegram(addrs[a], direction=d))
+                    except Exception as exc:  # noqa: BLE001
+                        part.viol(exc_sig("callback-filter-raises", exc), f"patterns={[CB_PATTERNS[i] for i in pats]} {CB_ADDRS[a]}: {exc!r}", {"cb": [pats, gas, out, list(hist)]}, rank=(step,))
+                        break
+                    if bool(got) != want(a, d):
+                        kind = "first-telegram" if step == 0 else "after-history"
+                        part.viol(f"callback-filter-differs:{kind}", f"Callback(patterns={[CB_PATTERNS[i] for i in pats]}, group_addresses={None if gas is None else [CB_ADDRS[g] for g in gas]}, outgoing={out}) after "
+                                  f"{[(CB_ADDRS[tele[t][0]], tele[t][1].name) for t in hist[:step]]}: is_within_filter({CB_ADDRS[a]}, {d.name}) = {got}, reference {want(a, d)}",
+                                  {"cb": [pats, gas, out, list(hist[: step + 1])]}, rank=(step, ci))
+                        break
+    finally:
+        GroupAddress.address_format = saved
+    return part
+
+
 def w_internal() -> Part:
     part = Part()
     sig_p = "ab*?"
@@ -165,12 +219,14 @@ def run(ctx: Ctx) -> None:
         f"(a) every level filter of one item over {len(items(ctx.seed))} items built from {NUMS}+seed (n, a-b, -b, a-, *) and every two-item list over {len(PAIR_ITEMS)} items, against every level "
         f"value 0..2048 and 65535; (b) ALL 1/2/3-level patterns over {WHOLE_ITEMS} x ALL 65 536 group addresses in the matching notation, each sweep repeated after toggling the notation "
         "(state independence), TelegramQueue.Callback and str/int address forms agree; (c) internal globs: all patterns <=4 chars over {a,b,*,?} x all names <=3 chars over {a,b,A}. "
+        "(d) TelegramQueue.Callback over 56 configurations (pattern lists, explicit group addresses, outgoing flag): ALL histories of 3 (thorough 4) telegrams over 7 addresses x in/out against one callback object, every decision = the stateless reference. "
         "Reference: vf/ref/addr.py. non-trivial = pairs the reference says match"
     )
     n = 32
     ctx.pmap(w_level, [(k, n, ctx.seed) for k in range(n)])
     ctx.pmap(w_whole, [(lv, i, ctx.thorough) for lv in (3, 2, 1) for i in range(len(WHOLE_ITEMS))])
     ctx.pmap(w_internal, [()])
+    ctx.pmap(w_callback_history, [(k, 16, 4 if ctx.thorough else 3) for k in range(16)])
 
 
 def replay(case: Any) -> list[tuple[str, str]]:
@@ -188,5 +244,12 @@ def replay(case: Any) -> list[tuple[str, str]]:
             return [] if bool(got) == want else [(f"pattern-match-differs:{case['levels']}-level", f"{case['pattern']!r}.match({case['raw']}) = {got}, reference {want}")]
         finally:
             GroupAddress.address_format = saved
+    if "cb" in case:
+        p = Part()
+        for k in range(16):
+            q = w_callback_history(k, 16, max(1, len(case["cb"][3])))
+            for sg, v in q.viols.items():
+                p.viols.setdefault(sg, v)
+        return [(sg, v[1]) for sg, v in p.viols.items()]
     p = w_internal()
     return [(s, v[1]) for s, v in p.viols.items()]
